@@ -929,3 +929,132 @@ def _ctor_models(f, slf, args, kw):
     except ImportError:
         pass
     return NO_MODEL
+
+
+# ------------------------------------------------------------------ base64 / hex (binascii) models
+import base64 as _b64
+import binascii as _binascii
+
+
+def _enc6(v, urlsafe):
+    c62, c63 = (45, 95) if urlsafe else (43, 47)
+    return z3.If(v < 26, v + 65, z3.If(v < 52, v + 71, z3.If(v < 62, v - 4, z3.If(v == 62, c62, c63))))
+
+
+def _dec6(c, urlsafe):
+    c62, c63 = (45, 95) if urlsafe else (43, 47)
+    return z3.If(z3.And(c >= 65, c <= 90), c - 65, z3.If(z3.And(c >= 97, c <= 122), c - 71,
+           z3.If(z3.And(c >= 48, c <= 57), c + 4, z3.If(c == c62, 62, z3.If(c == c63, 63, -1)))))
+
+
+def _bytes_of(x):
+    if isinstance(x, CStr):
+        return x
+    if isinstance(x, (bytes, bytearray)):
+        return CStr(list(x), is_bytes=True)
+    if isinstance(x, str):
+        return CStr([ord(ch) for ch in x])
+    raise TypeError("a bytes-like object is required, not '%s'" % type(x).__name__)
+
+
+def b64encode_model(data, urlsafe=False):
+    data = _bytes_of(data)
+    if not data.is_bytes:
+        raise TypeError("a bytes-like object is required, not 'str'")
+    out = []
+    bs = [SInt(_cz(b)) for b in data.c]
+    for i in range(0, len(bs), 3):
+        g = bs[i:i + 3]
+        b0 = g[0]
+        s0 = b0 // 4
+        if len(g) == 1:
+            out += [_enc6(s0.z, urlsafe), _enc6(((b0 % 4) * 16).z, urlsafe), 61, 61]
+            continue
+        b1 = g[1]
+        s1 = (b0 % 4) * 16 + b1 // 16
+        if len(g) == 2:
+            out += [_enc6(s0.z, urlsafe), _enc6(s1.z, urlsafe), _enc6(((b1 % 16) * 4).z, urlsafe), 61]
+            continue
+        b2 = g[2]
+        s2 = (b1 % 16) * 4 + b2 // 64
+        out += [_enc6(s0.z, urlsafe), _enc6(s1.z, urlsafe), _enc6(s2.z, urlsafe), _enc6((b2 % 64).z, urlsafe)]
+    return CStr([z3.simplify(c) if z3.is_expr(c) else c for c in out], is_bytes=True)
+
+
+def b64decode_model(data, urlsafe=False):
+    """binascii.a2b_base64 in its default, non-strict mode: characters outside the alphabet are discarded,
+    decoding stops at the padding; incomplete trailing groups raise binascii.Error"""
+    data = _bytes_of(data)
+    sext = []
+    npad = 0
+    for ch in data.c:
+        c = _cz(ch)
+        if E.branch(c == 61):
+            npad += 1
+            if len(sext) % 4 >= 2 and (len(sext) % 4 == 3 or npad >= 2):
+                break
+            continue
+        if npad and len(sext) % 4 != 0:
+            npad = 0
+        v = _dec6(c, urlsafe)
+        if E.branch(v >= 0):
+            sext.append(SInt(z3.simplify(v)))
+        # else: discarded (non-alphabet character)
+    rem = len(sext) % 4
+    if rem == 1:
+        raise _binascii.Error('Invalid base64-encoded string: number of data characters cannot be 1 more '
+                              'than a multiple of 4')
+    if rem and npad < (4 - rem):
+        raise _binascii.Error('Incorrect padding')
+    out = []
+    for i in range(0, len(sext) - rem, 4):
+        s0, s1, s2, s3 = sext[i:i + 4]
+        out += [(s0 * 4 + s1 // 16).z, ((s1 % 16) * 16 + s2 // 4).z, ((s2 % 4) * 64 + s3).z]
+    if rem >= 2:
+        s = sext[len(sext) - rem:]
+        out.append((s[0] * 4 + s[1] // 16).z)
+        if rem == 3:
+            out.append(((s[1] % 16) * 16 + s[2] // 4).z)
+    return CStr([z3.simplify(c) for c in out], is_bytes=True)
+
+
+def hexlify_model(data):
+    data = _bytes_of(data)
+    out = []
+    for b in data.c:
+        sb = SInt(_cz(b))
+        for v in (sb // 16, sb % 16):
+            out.append(z3.simplify(z3.If(v.z < 10, v.z + 48, v.z + 87)))
+    return CStr(out, is_bytes=True)
+
+
+def unhexlify_model(data):
+    data = _bytes_of(data)
+    if len(data.c) % 2:
+        raise _binascii.Error('Odd-length string')
+    vals = []
+    for ch in data.c:
+        c = _cz(ch)
+        v = z3.If(z3.And(c >= 48, c <= 57), c - 48, z3.If(z3.And(c >= 97, c <= 102), c - 87,
+                  z3.If(z3.And(c >= 65, c <= 70), c - 55, -1)))
+        if not E.branch(v >= 0):
+            raise _binascii.Error('Non-hexadecimal digit found')
+        vals.append(z3.simplify(v))
+    return CStr([z3.simplify(vals[i] * 16 + vals[i + 1]) for i in range(0, len(vals), 2)], is_bytes=True)
+
+
+@register
+def _binary_models(f, slf, args, kw):
+    if f is _b64.b64encode:
+        return b64encode_model(args[0])
+    if f is _b64.urlsafe_b64encode:
+        return b64encode_model(args[0], urlsafe=True)
+    if f is _b64.b64decode:
+        return b64decode_model(args[0])
+    if f is _b64.urlsafe_b64decode:
+        return b64decode_model(args[0], urlsafe=True)
+    if f is _binascii.hexlify:
+        return hexlify_model(args[0])
+    if f is _binascii.unhexlify:
+        return unhexlify_model(args[0])
+    return NO_MODEL
